@@ -190,9 +190,23 @@ func genConcurrent(r *rand.Rand, quick bool) *plan.Plan {
 		r2 := rand.New(rand.NewPCG(uint64(len(clients))*1_000_003+uint64(sum), 0x11d))
 		if r2.IntN(3) == 0 {
 			var ops []plan.Op
-			for b := 0; b < 2+r2.IntN(5); b++ {
-				ops = append(ops, plan.Op{Kind: "advance", DurMs: int64([]int{0, 1, 200, 2400, 4990, 5000, 5010, 7000}[r2.IntN(8)])},
-					plan.Op{Kind: "mem_pressure", Args: map[string]any{"unrotated_permille": float64([]int{0, 100, 500, 900}[r2.IntN(4)])}})
+			press := func() plan.Op {
+				return plan.Op{Kind: "mem_pressure", Args: map[string]any{"unrotated_permille": float64([]int{0, 100, 500, 900}[r2.IntN(4)])}}
+			}
+			if r2.IntN(2) == 0 {
+				// the limiter wakes at the instants at which the flusher/rotator acts (same think times): it meets
+				// flushes and rotations in progress; the open segments have metadata to evict from the second one on
+				for _, fo := range clients[nIng] {
+					if fo.Kind == "advance" {
+						ops = append(ops, fo)
+					} else {
+						ops = append(ops, press())
+					}
+				}
+			} else {
+				for b := 0; b < 2+r2.IntN(5); b++ {
+					ops = append(ops, plan.Op{Kind: "advance", DurMs: int64([]int{0, 1, 200, 2400, 4990, 5000, 5010, 7000}[r2.IntN(8)])}, press())
+				}
 			}
 			clients = append(clients, ops)
 			p.Params["memory_limiter_client"] = true
